@@ -1,9 +1,10 @@
 #!/bin/sh
 # usage: confirm_seeded.sh <name> <dir with patch.diff demo.py meta.json>
 # Confirms in a scratch worktree (outside /repo and /verif) that the patch applies, the repo's suite passes with it,
-# and demo.py passes without / fails with the patch; then stores it under /verif/seeded/<name>/.
+# and demo.py passes without / fails with the patch; then stores it under $root/seeded/<name>/.
 set -u
 name=$1; src=$2
+root=$(cd "$(dirname "$0")/.." && pwd)
 wt=$(mktemp -d /tmp/confirm-XXXXXX); rmdir $wt
 git -C /repo worktree add -q --detach $wt HEAD || exit 2
 cleanup() { git -C /repo worktree remove --force $wt; }
@@ -17,16 +18,16 @@ suite=$(PYTHONPATH=$wt PYTHONDONTWRITEBYTECODE=1 /venv/bin/python -m pytest -q -
 echo "demo clean rc=$rc_clean ; demo mutated rc=$rc_mut ; suite: $suite"
 case "$suite" in *"496 passed"*) ok_suite=1;; *) ok_suite=0;; esac
 if [ $rc_clean -eq 0 ] && [ $rc_mut -ne 0 ] && [ $ok_suite -eq 1 ]; then
-  mkdir -p /verif/seeded/$name
-  cp $src/patch.diff $src/demo.py /verif/seeded/$name/
-  /venv/bin/python - "$name" "$src" "$suite" <<'PY'
+  mkdir -p $root/seeded/$name
+  cp $src/patch.diff $src/demo.py $root/seeded/$name/
+  /venv/bin/python - "$name" "$src" "$suite" "$root" <<'PY'
 import json,sys
-name,src,suite=sys.argv[1:4]
+name,src,suite,root=sys.argv[1:5]
 m=json.load(open(src+"/meta.json"))
 m["confirmed"]={"by":"tools/confirm_seeded.sh in a scratch worktree of /repo HEAD","demo_on_clean_tree":"exit 0","demo_with_patch":"non-zero exit","suite_with_patch":suite.strip()}
-json.dump(m,open("/verif/seeded/%s/meta.json"%name,"w"),indent=1)
+json.dump(m,open(root+"/seeded/%s/meta.json"%name,"w"),indent=1)
 PY
-  echo "CONFIRMED -> /verif/seeded/$name"
+  echo "CONFIRMED -> $root/seeded/$name"
 else
   echo "NOT CONFIRMED"; tail -5 /tmp/confirm-clean.out /tmp/confirm-mut.out; exit 1
 fi
